@@ -1,0 +1,7 @@
+//go:build verif
+
+package bits
+
+// Frame of the bit-level writer methods (needed by callers that have an assigns clause, property C02).
+//@ func (*FixedSliceWriter).WriteBits
+//@   assigns sw.off, sw.accError, sw.n, sw.v, sw.buf[:]
